@@ -468,3 +468,27 @@ def norm_stmt(node: ast.AST, limit: int = 160, canon: bool = True) -> str:
         s = type(node).__name__
     s = " ".join(s.split())
     return s[:limit]
+
+
+def rename_copy(fn: ast.AST, mapping: Dict[str, str]) -> ast.AST:
+    """a deep copy of function `fn` in which the local names in `mapping` (actual -> role name) are renamed; parent
+    pointers, line numbers and the _qual/_rel annotations are kept.  Rules written against role names can then be run on
+    code whose locals were renamed (the mapping is computed by role, e.g. 'the name bound to peek_first(...)[1]')."""
+    mapping = {k: v for k, v in mapping.items() if k and v and k != v}
+    c = _copy_without_parents(fn)
+    if mapping:
+        clash = set(mapping.values()) & ({n.id for n in ast.walk(c) if isinstance(n, ast.Name)} - set(mapping))
+        for n in ast.walk(c):
+            if isinstance(n, ast.Name):
+                if n.id in mapping:
+                    n.id = mapping[n.id]
+                elif n.id in clash:
+                    n.id = n.id + "__other"
+    for p in ast.walk(c):
+        for ch in ast.iter_child_nodes(p):
+            ch._parent = p  # type: ignore[attr-defined]
+    c._parent = getattr(fn, "_parent", None)  # type: ignore[attr-defined]
+    for a in ("_qual", "_rel"):
+        if hasattr(fn, a):
+            setattr(c, a, getattr(fn, a))
+    return c
